@@ -43,6 +43,47 @@ class _Visitor(ast.NodeVisitor):
         self.edges = []         # (lock_a, lock_b, lineno)
         self.calls_held = []    # (method, tuple(held), lineno)
         self.raw_acquire = []
+        self.block = [0]        # ids of the enclosing critical sections (0 = none); every `with` gets a fresh id
+        self.nblocks = 0
+        self.taint = {}         # local name -> {(guarded field, critical section id it was read in)}
+        self.stale_writes = []  # (field, lineno, read block, write block)
+
+    # ---- read-modify-write of a guarded field must happen inside ONE critical section
+    def _taint_of(self, expr):
+        out = set()
+        for n in ast.walk(expr):
+            if isinstance(n, ast.Attribute) and isinstance(n.value, ast.Name) and n.value.id == "self" \
+                    and n.attr in self.spec.guarded and isinstance(n.ctx, ast.Load):
+                out.add((n.attr, self.block[-1]))
+            elif isinstance(n, ast.Name) and isinstance(n.ctx, ast.Load):
+                out |= self.taint.get(n.id, set())
+        return out
+
+    def _assign(self, targets, value, lineno):
+        t = self._taint_of(value)
+        for tg in targets:
+            if isinstance(tg, ast.Name):
+                self.taint[tg.id] = set(t)
+            elif isinstance(tg, (ast.Tuple, ast.List)):
+                self._assign(tg.elts, value, lineno)
+            elif isinstance(tg, ast.Attribute) and isinstance(tg.value, ast.Name) and tg.value.id == "self" \
+                    and tg.attr in self.spec.guarded:
+                for fld, blk in t:
+                    if fld == tg.attr and blk != self.block[-1] and blk not in self.block:
+                        self.stale_writes.append((fld, lineno, blk, self.block[-1]))
+
+    def visit_Assign(self, node):
+        self._assign(node.targets, node.value, node.lineno)
+        self.generic_visit(node)
+
+    def visit_AnnAssign(self, node):
+        if node.value is not None:
+            self._assign([node.target], node.value, node.lineno)
+        self.generic_visit(node)
+
+    def visit_For(self, node):
+        self._assign([node.target], node.iter, node.lineno)
+        self.generic_visit(node)
 
     def visit_With(self, node):
         locks = _with_locks(node)
@@ -51,8 +92,11 @@ class _Visitor(ast.NodeVisitor):
                 if h != lk:
                     self.edges.append((h, lk, node.lineno))
         self.held.extend(lk for owner, lk in locks if owner == "self")
+        self.nblocks += 1
+        self.block.append(self.nblocks)
         for s in node.body:
             self.visit(s)
+        self.block.pop()
         for owner, lk in locks:
             if owner == "self":
                 self.held.pop()
@@ -121,6 +165,15 @@ def check(repo, spec: LockSpec):
                                   (f"under {spec.guarded[fld]}" if ok and kind != "atomic-read" else
                                    "single read of an immutable value (allowed)" if ok else
                                    f"is NOT inside `with self.{spec.guarded[fld]}:`")})
+        for fld, line, rb, wb in v.stale_writes:
+            out.append({"name": f"{spec.cls_qual}.{mname}/read-modify-write-in-one-critical-section:{fld}", "line": line,
+                        "status": "refuted", "kind": "ownership",
+                        "detail": f"self.{fld} is assigned at line {line} from a value read from self.{fld} in an earlier, separate "
+                                  f"critical section: an update made by another thread in between is lost"})
+        if not v.stale_writes and any(k == "write" for _, _, k, _ in v.accesses):
+            out.append({"name": f"{spec.cls_qual}.{mname}/read-modify-write-in-one-critical-section", "line": 0,
+                        "status": "proved", "kind": "ownership",
+                        "detail": "no guarded field is assigned from a snapshot of itself taken in another critical section"})
         if v.raw_acquire:
             out.append({"name": f"{spec.cls_qual}.{mname}/locks-only-by-with", "line": v.raw_acquire[0],
                         "status": "refuted", "kind": "ownership",
